@@ -23,7 +23,7 @@ import (
 const (
 	maxByteBuf   = 262144 // bpool.maxBufferLength
 	maxSlicesBuf = 4096   // bpool.maxByteSlicesBufLength
-	shortPutZone = 96     // cases [0,shortPutZone): item buffers may be resliced shorter before put
+	shortPutZone = 96     // every third case in [0,shortPutZone): item buffers may be resliced shorter before put
 )
 
 const (
@@ -79,6 +79,7 @@ type caseState struct {
 	mu       sync.Mutex
 	reported map[string]bool
 	stop     atomic.Bool
+	big      atomic.Int64 // remaining requests above bigBytes in this case
 	cnt      sync.Map // name -> *atomic.Int64
 }
 
@@ -104,28 +105,27 @@ func (s *caseState) violation(class, msg string, detail map[string]any) {
 	s.c.Violation(class, msg, detail)
 }
 
-const totalOps = 2000
+const totalOps = 12000
 
 const classStaleBeyond = "itembuf-stale-items-beyond-len-survive-put"
 
 // big allocations (and freeing them) are very expensive under the race detector (shadow memory is
 // remapped), so each goroutine gets a budget of them per case; beyond it lengths are redrawn small.
 const bigBytes = 16 << 10
+const bigPerCase = 8
 
 func (w *worker) length(maxPow int, allowNonPositive bool, elemSize int) int {
 	n := pickLen(w.r, maxPow, allowNonPositive)
 	if n*elemSize > bigBytes {
-		if w.big <= 0 {
+		if w.s.big.Add(-1) < 0 {
 			return w.r.Range(1, bigBytes/elemSize)
 		}
-		w.big--
 		w.s.count("big_allocation_requests", 1)
 	}
 	return n
 }
 
 type worker struct {
-	big      int
 	s        *caseState
 	r        *kit.Rand
 	id       int
@@ -477,13 +477,14 @@ func (w *worker) run(ops int) {
 
 func runCase(c *kit.Case) {
 	s := &caseState{c: c, reported: map[string]bool{}}
-	shortPut := c.Index < shortPutZone
+	s.big.Store(bigPerCase)
+	shortPut := c.Index < shortPutZone && c.Index%3 == 0
 	g := kit.Pick(c.R, []int{1, 2, 4, 8, 8, 16, 32})
 	ops := totalOps / g
 	var wg sync.WaitGroup
 	workers := make([]*worker, g)
 	for i := range workers {
-		workers[i] = &worker{big: max(1, 32/g), s: s, id: i, shortPut: shortPut, r: kit.NewRand(c.R.Uint64(), uint64(i))}
+		workers[i] = &worker{s: s, id: i, shortPut: shortPut, r: kit.NewRand(c.R.Uint64(), uint64(i))}
 	}
 	for _, w := range workers {
 		wg.Add(1)
@@ -527,8 +528,8 @@ func TestC42(t *testing.T) {
 	kit.Main(t, kit.Spec{
 		ID:    "C42",
 		Level: "exploration",
-		Rule: "one case = 1..32 goroutines (2000 operations in total) doing random get/put on the three process-wide pool families, each goroutine holding up to 12 buffers per family and allowed 32/goroutines requests above 16 KiB (large allocations are slow under the race detector; further draws are redrawn below 16 KiB): bpool.GetByteBuffer (lengths 2^k-1,2^k,2^k+1 for k<=18, 262144+-2, above the maximum, 0), bpool.GetByteSlicesBuf and the writer's getItemBuf (k<=12, 4096+-2, above, 0 and negative lengths). Before a put the buffer is used/dirtied and, at random: left as is, grown past its capacity by append, extended to capacity and filled, resliced shorter, set to nil; 20% of puts are foreign buffers with arbitrary capacity (0..300, around powers of two, up to 9000) and length. " +
-			fmt.Sprintf("Item buffers are returned with a len shorter than the dirtied region only in cases [0,%d). ", shortPutZone) +
+		Rule: "one case = 1..32 goroutines (12000 operations in total) doing random get/put on the three process-wide pool families, each goroutine holding up to 12 buffers per family and the case as a whole allowed 8 requests above 16 KiB (large allocations are slow under the race detector; further draws are redrawn below 16 KiB): bpool.GetByteBuffer (lengths 2^k-1,2^k,2^k+1 for k<=18, 262144+-2, above the maximum, 0), bpool.GetByteSlicesBuf and the writer's getItemBuf (k<=12, 4096+-2, above, 0 and negative lengths). Before a put the buffer is used/dirtied and, at random: left as is, grown past its capacity by append, extended to capacity and filled, resliced shorter, set to nil; 20% of puts are foreign buffers with arbitrary capacity (0..300, around powers of two, up to 9000) and length. " +
+			fmt.Sprintf("Item buffers are returned with a len shorter than the dirtied region only in every third case of [0,%d). ", shortPutZone) +
 			"Oracle at every get: byte buffer and byte-slice list have len 0 and cap >= requested; item buffer has cap >= requested, len >= requested and every element of B equal to the zero Item. Built with -race. evaluations = gets checked. Non-trivial = every case (signature: goroutine count, which paths occurred: recycled foreign capacity handed out, above-maximum requests, short puts).",
 		Assumptions: []string{
 			"a negative length is not a 'requested length' for GetByteBuffer (it indexes the pool array with it and panics); it is not generated for byte buffers",
@@ -536,7 +537,7 @@ func TestC42(t *testing.T) {
 			"for item buffers (getItemBuf returns len == requested) 'empty' means every element of B is the zero value",
 			"sync.Pool may drop buffers at any time (and drops a quarter of the puts under -race), so reuse is probabilistic; itembuf/bytebuffer *_recycled counters show that reuse happened",
 		},
-		Cases:           map[string]int{"quick": 240, "thorough": 2400},
+		Cases:           map[string]int{"quick": 96, "thorough": 1200},
 		RequireCounters: []string{"bytebuffer_get", "byteslices_get", "itembuf_get", "bytebuffer_put_foreign", "byteslices_put_foreign", "itembuf_put_foreign", "bytebuffer_put_grown", "byteslices_put_grown", "itembuf_put_grown", "bytebuffer_get_returned_recycled_foreign_capacity", "bytebuffer_get_above_max", "byteslices_get_above_max", "itembuf_get_above_max", "itembuf_get_non_positive_length", "byteslices_get_non_positive_length", "itembuf_put_with_dirty_elements_beyond_len", "itembuf_elements_checked_zero"},
 		CaseTimeout:     10 * time.Minute,
 		Run:             runCase,
